@@ -180,8 +180,11 @@ def match_known(known: List[dict], f: Finding) -> Optional[dict]:
     for k in known:
         if k.get("status") != "known":
             continue  # fixed entries suppress nothing
-        if f.prop in k.get("properties", []) and k.get("rule") == f.rule and k.get("construct") == f.construct and k.get("statement") == f.statement:
-            return k
+        if f.prop in k.get("properties", []) and k.get("rule") == f.rule and k.get("statement") == f.statement:
+            # the same class.method / function after it was moved to another module of the package is the same site
+            kc, fc = k.get("construct", ""), f.construct
+            if kc == fc or (":" in kc and ":" in fc and kc.split(":", 1)[1] == fc.split(":", 1)[1]):
+                return k
     return None
 
 
